@@ -897,11 +897,18 @@ class PubKeyV4(PubKey):
         self.keymaterial = None
 
     def __bytearray__(self):
+        _body = bytearray()
+        _body += self.int_to_bytes(calendar.timegm(self.created.utctimetuple()), 4)
+        _body += self.int_to_bytes(self.pkalg)
+        _body += self.keymaterial.__bytearray__()
+        # multiprecision integers are written in their shortest form, which need not be the one that was read
+        # (another producer may declare leading zero bits): the header has to count the version octet and the
+        # octets written here
+        self.header.length = 1 + len(_body)
+
         _bytes = bytearray()
         _bytes += super(PubKeyV4, self).__bytearray__()
-        _bytes += self.int_to_bytes(calendar.timegm(self.created.utctimetuple()), 4)
-        _bytes += self.int_to_bytes(self.pkalg)
-        _bytes += self.keymaterial.__bytearray__()
+        _bytes += _body
         return _bytes
 
     def __copy__(self):
